@@ -395,6 +395,25 @@ pub fn gen_op(
                             let k = b.len() - 1;
                             b[k].header.next_validators_hash = celestia_types::hash::Hash::Sha256(rng.r#gen());
                         }
+                        // Two independent defects in one batch (error precedence is part of the abstract model:
+                        // constraints, then neighbours, then the hash index): the batch does not link to a stored
+                        // neighbour AND one of its headers advertises a hash that is already stored or is repeated
+                        // inside the batch.  Placed at the far end from the broken link.
+                        if (lower || upper) && rng.gen_bool(0.4) {
+                            let broke_lower = lower && b[0].header.last_block_id.map(|id| id.hash) != u.a.get((lo - 1) as usize).and_then(|h| h.header.last_block_id.map(|id| id.hash));
+                            let pos = if broke_lower { b.len() - 1 } else { 0 };
+                            let donor_hash = if pos > 0 && rng.gen_bool(0.3) {
+                                Some(b[rng.gen_range(0..pos)].hash())
+                            } else if !stored.is_empty() {
+                                let r = stored.choose(rng).unwrap();
+                                stored_hashes.get(&rng.gen_range(r.0..=r.1)).copied()
+                            } else {
+                                None
+                            };
+                            if let Some(d) = donor_hash {
+                                b[pos].commit.block_id.hash = d;
+                            }
+                        }
                     }
                 }
                 87..=90 => {
